@@ -1594,10 +1594,14 @@ def stale_static_state(prog, roots, file_ok=None):
     from an earlier call can reach a use in a later one: on some path from the declaration the first thing done with the variable is not
     a whole-object overwrite (clear(), assignment, assign()).  A pure counter (only ++ / fetch_add, never read) and synchronisation
     objects carry no data from call to call and are skipped.  Returns also the number of functions looked at."""
+    # (the functions as written: a flattened copy of a root carries the statics of the helpers expanded into it under suffixed names, and
+    # the helpers themselves are reached through the call graph anyway)
+    roots = [prog.funcs.get(r_.id, r_) for r_ in roots]
     reach = callgraph_reach(prog, roots)
     out = []
     n = 0
     for fid, (f, chain) in reach.items():
+        f = prog.funcs.get(f.id, f)
         if file_ok is not None and not file_ok(f.file):
             continue
         n += 1
